@@ -58,7 +58,13 @@ func executor(m *monitor) *kmipserver.BatchExecutor {
 	ex.Route(kmip.OperationDestroy, kmipserver.HandleFunc(func(ctx context.Context, req *payloads.DestroyRequestPayload) (*payloads.DestroyResponsePayload, error) {
 		enter()
 		defer leave()
-		v := kmipserver.IdPlaceholder(ctx)
+		var v string
+		if req.UniqueIdentifier == "r2" {
+			// the other reader: resolve an omitted identifier (an error means "the placeholder is empty")
+			v, _ = kmipserver.GetIdOrPlaceholder(ctx, "")
+		} else {
+			v = kmipserver.IdPlaceholder(ctx)
+		}
 		runtime.Gosched()
 		return &payloads.DestroyResponsePayload{UniqueIdentifier: "read:" + v}, nil
 	}))
@@ -110,7 +116,7 @@ func build(reqID string, prog []int) *kmip.RequestMessage {
 		case aSet:
 			bi.Operation, bi.RequestPayload = kmip.OperationActivate, &payloads.ActivateRequestPayload{UniqueIdentifier: fmt.Sprintf("%s:%d", reqID, i)}
 		case aRead:
-			bi.Operation, bi.RequestPayload = kmip.OperationDestroy, &payloads.DestroyRequestPayload{UniqueIdentifier: "r"}
+			bi.Operation, bi.RequestPayload = kmip.OperationDestroy, &payloads.DestroyRequestPayload{UniqueIdentifier: []string{"r", "r2"}[i%2]}
 		case aFail:
 			bi.Operation, bi.RequestPayload = kmip.OperationArchive, &payloads.ArchiveRequestPayload{UniqueIdentifier: "f"}
 		case aSetEmpty:
@@ -349,7 +355,7 @@ func Spec() *core.Spec {
 		Level: "exploration",
 		Race:  true,
 		Rule: "seeded programs of 1-8 batch items over {set (value = request id + item index), read, fail, noop}; 2-64 goroutines issuing requests through BatchExecutor.HandleRequest at once (handlers yield so that items of different requests interleave; in half of the rounds a retry middleware runs the chain twice for a quarter of the requests) and 1-16 real server connections each sending a sequence of 6 requests; " +
-			"every read is checked against a per-request sequential register model starting empty; any value carrying another request's id is a leak, identified exactly; race reports whose stacks are the placeholder accessors are violations. a fifth action storing the empty value; a batch-splitting message middleware (chunks through separate continuation calls); distinct = distinct programs",
+			"every read is checked against a per-request sequential register model starting empty; any value carrying another request's id is a leak, identified exactly; race reports whose stacks are the placeholder accessors are violations. a fifth action storing the empty value; reads through IdPlaceholder and through GetIdOrPlaceholder; a batch-splitting message middleware (chunks through separate continuation calls); distinct = distinct programs",
 		Assumptions: []string{"after a failed item both the previous value and the empty value are accepted (the statement is silent on clearing)"},
 		Required:    []string{"requests.direct", "requests.wire", "reads", "handler_overlaps", "connections", "retried_requests", "split_requests", "empty_value_stored_over_a_value"},
 		RaceVerdict: func(r core.RaceReport) (string, bool) {
